@@ -763,13 +763,13 @@ fn c12_o4c_rekey_pivot_bucket() {
 //@ standins: vcoll
 //@ also: C14
 //@ desc: a known id that re-appears from ANOTHER IP does not bypass the per-IP Sybil rule: the table holds A (1.2.3.4) and an insecure B (8.8.8.8); a node with A's id arriving from 8.8.8.8 (secure or not) is refused and the table is unchanged (A keeps its address, B stays) -- while the same id arriving again from A's own address refreshes A (C14.O1: last_seen = now, exactly one entry for A)
-//@ bounds: concrete ids in one bucket (160); A secure / insecure and the incoming node secure / insecure as pre-drawn bits of the uninterpreted validity predicate; B insecure (assumed); symbolic clock step; unwind 8
+//@ bounds: concrete ids in one bucket (160); A secure / insecure and the incoming node secure / insecure as pre-drawn bits of the uninterpreted validity predicate; B insecure (assumed); symbolic clock step; unwind 21
 //@ stubs: Node::is_secure -> uninterpreted predicate (see C12.O3); std::time::Instant::now -> symbolic whole-second clock
 //@ functions: RoutingTable::add (per-IP scan skipping same-id entries), KBucket::add
 #[kani::proof]
 #[kani::stub(std::time::Instant::now, clock::now)]
 #[kani::stub(crate::common::node::Node::is_secure, crate::verif_env::ufs::is_secure)]
-#[kani::unwind(8)]
+#[kani::unwind(21)]
 fn c12_o3k_known_id_other_ip() {
     crate::verif_env::ufs::arm(kani::any());
     clock::set(0);
